@@ -306,9 +306,7 @@ def modelStep (tol : Q) (n : Nat) (t : PT Q) (op : Op) (s : OState) : Option (PT
     (some (PT.mapTerminals (fun f => if treeLeft then op.onAff f a else op.onAff a f) t), s)
   | .neg => (some (PT.mapTerminals Aff.neg t), s)
   | .plant idx pts =>
-    (some (t.modifyAt (fun nd => match nd.val.state with
-      | .witness ws => .node nd.idx ⟨nd.val.aff, .witness (ws ++ pts)⟩ nd.kids
-      | _ => nd) idx), s)
+    (some (PT.plant t idx pts), s)
 
 /-- what the step must compute at input `x`, stated directly (the specification side) -/
 def specStep (t : PT Q) (op : Op) (x : List Q) : Option (List Q) :=
